@@ -311,7 +311,9 @@ func handleHotRestartAck(s *Session, hdr header, buf []byte) (int, bool, error) 
 	s.listener.mu.Lock()
 	defer s.listener.mu.Unlock()
 
-	if epochID == s.listener.epoch {
+	// only count an ack that answers the hot restart in progress on a session still waiting for it:
+	// a late ack (after checkHotRestart timed out and reset the count) or a repeated one is ignored
+	if s.listener.state == hotRestartState && epochID == s.listener.epoch && s.state == hotRestartState {
 		s.listener.hotRestartAckCount--
 		s.state = hotRestartDoneState
 	}
